@@ -424,6 +424,8 @@ const (
 
 var hangs int // hangs observed so far; the run stops reporting more after maxHangs
 
+var slowCalls int // calls that outlasted the watchdog time but did return
+
 // guarded runs fn on its own goroutine under recover and a watchdog: a panic or a hang of the real
 // code becomes an error the replayer turns into a keyed divergence (the goroutine of a hang leaks).
 func guarded(fn func() error) error {
@@ -440,9 +442,18 @@ func guarded(fn func() error) error {
 	case err := <-done:
 		return err
 	case <-time.After(callTimeout):
-		hangs++
-		return errHang
 	}
+	// A machine under heavy load (or short of memory) can stall a correct call for this long (seen
+	// once: a Restart on a 2x overloaded box, not reproducible): only a call that has still not
+	// returned after a much longer wait is a hang; the slow ones are counted.
+	select {
+	case err := <-done:
+		slowCalls++
+		return err
+	case <-time.After(3 * callTimeout):
+	}
+	hangs++
+	return errHang
 }
 
 func requestJSON(method string, params map[string]any) string {
@@ -1904,5 +1915,6 @@ func TestRpcReadReplay(t *testing.T) {
 		}
 	}
 	out.Stats["observations"] = vh.J{"counts": observed, "examples": observedExamples}
+	out.Stats["slow_calls"] = slowCalls
 	out.Done(replayed, steps)
 }
